@@ -412,7 +412,8 @@ func (e *Engine) runPath(fn *ssa.Function, prefix []uint64, base Options) {
 	// to validate the engine against a native run of the same harness
 	if len(e.res.Witnesses) < 2 && len(e.res.vars) > 0 {
 		if e.S.Check() == solver.Sat {
-			e.res.Witnesses = append(e.res.Witnesses, e.S.Model(e.res.vars))
+			// lengths of abstract buffers are minimised so that the native run can allocate them
+			e.res.Witnesses = append(e.res.Witnesses, e.minimizeInts(term.True, e.S.Model(e.res.vars)))
 		}
 	}
 }
